@@ -27,6 +27,7 @@ const (
 	kWrap1
 	kWrap2
 	kWrapErr
+	kWrapLater // runs the continuation once now and once more after the whole sequence has returned (a background refresh)
 	kKinds
 )
 
@@ -40,6 +41,7 @@ type vrtProg struct {
 	aKind   map[int]int
 	aTarget map[int]int
 	maxM    int
+	later   *ChainWalker // continuation kept by the first kWrapLater action
 }
 
 type vrtRule struct {
@@ -143,6 +145,17 @@ func (a *vrtAction) Exec(ctx context.Context, qCtx *query_context.Context, next 
 	case kGoto:
 		return ActionGoto{To: p.chains[t]}.Exec(ctx, qCtx, next)
 	}
+	if k == kWrapLater {
+		if err := next.ExecNext(ctx, qCtx); err != nil {
+			return err
+		}
+		p.trace = append(p.trace, 2000+a.r.id)
+		if p.later == nil {
+			kept := next
+			p.later = &kept
+		}
+		return nil
+	}
 	// wrapper: runs the continuation 0, 1 or 2 times and then post-processes
 	for i := 0; i < k-kWrap0; i++ {
 		if err := next.ExecNext(ctx, qCtx); err != nil {
@@ -186,6 +199,7 @@ type vrtRef struct {
 	p      *vrtProg
 	trace  []int
 	marker int
+	later  func() int
 }
 
 // returns 0 = finished, 1 = error
@@ -235,6 +249,15 @@ func (x *vrtRef) run(seq, pos int, jb func() int) int {
 			return x.run(t, 0, rest)
 		case kGoto:
 			return x.run(t, 0, nil)
+		case kWrapLater:
+			if rest() != 0 {
+				return 1
+			}
+			x.trace = append(x.trace, 2000+r.id)
+			if x.later == nil {
+				x.later = rest
+			}
+			return 0
 		default:
 			for n := 0; n < k-kWrap0; n++ {
 				if rest() != 0 {
@@ -261,8 +284,22 @@ func vrtHarness_C06_walker() {
 	seq := &Sequence{chain: p.chains[top]}
 	err := seq.Exec(context.Background(), qCtx)
 
+	// a continuation kept by a wrapping action is run once more after everything has returned
+	var lerr error
+	if err == nil && p.later != nil {
+		p.trace = append(p.trace, 3000)
+		lerr = p.later.ExecNext(context.Background(), qCtx)
+	}
+
 	ref := &vrtRef{p: p, marker: -1}
 	want := ref.run(top, 0, nil)
+	wantLater := 0
+	if want == 0 && ref.later != nil {
+		ref.trace = append(ref.trace, 3000)
+		wantLater = ref.later()
+		vrtCover("a kept continuation was run again after the sequence had returned", true)
+	}
+	vrtAssert("a continuation that is run again later reports errors as the rules say", (lerr != nil) == (wantLater == 1))
 
 	vrtCover("finished", err == nil)
 	vrtCover("aborted with an error", err != nil)
